@@ -7,7 +7,7 @@
 use dsl::{
     common::*,
     configuration::AccessDeclaration,
-    core::{Id, SourceSpan},
+    core::Id,
 };
 
 /// Defines VarDecl type without the type information (e.g. input, output).
@@ -84,11 +84,13 @@ impl From<IncomplVarDecl> for VarDecl {
             }
         };
 
+        // The position of the variable is the position of its name
+        let span = val.name.span.clone();
         Self {
             identifier: VariableIdentifier::Direct(DirectVariableIdentifier {
                 name: Some(val.name),
                 address_assignment: val.loc,
-                span: SourceSpan::default(),
+                span,
             }),
             var_type: VariableType::Var,
             qualifier: val.qualifier,
